@@ -234,7 +234,7 @@ def gen_paths(tier, rng):
     for n in range(0, maxlen + 1):
         for t in itertools.product(CMDS, repeat=n):
             seqs.append("".join(t))
-    extra = 2500 if tier == "quick" else 60000
+    extra = 2500 if tier == "quick" else 8000
     for _ in range(extra):
         n = rng.choice([3, 4, 4, 5, 8, 12]) if tier == "quick" else rng.choice([4, 4, 4, 5, 6, 9, 12])
         seqs.append("".join(rng.choice(CMDS) for _ in range(n)))
